@@ -6,6 +6,7 @@ import (
 
 	"github.com/innovationb1ue/RedisGO/config"
 	"github.com/innovationb1ue/RedisGO/logger"
+	"github.com/innovationb1ue/RedisGO/memdb"
 )
 
 // setupLogger installs a config and a silenced logger (logger.* dereferences a nil config otherwise).
@@ -32,4 +33,14 @@ func setupLogger() {
 		panic(err)
 	}
 	logger.Disable()
+	// the registrations main.go's init() performs
+	memdb.RegisterKeyCommands()
+	memdb.RegisterStringCommands()
+	memdb.RegisterListCommands()
+	memdb.RegisterSetCommands()
+	memdb.RegisterHashCommands()
+	memdb.RegisterPubSubCommands()
+	memdb.RegisterSortedSetCommands()
+	memdb.RegisterStreamCommands()
+	memdb.RegisterRaftCommand()
 }
